@@ -82,13 +82,19 @@ theorem lutKeys_split : lutKeys = chunk 0 ++ (chunk 1 ++ tail 2) := by
   rw [show (2 * 50 : Nat) = 50 + 50 from rfl, ← List.drop_drop, List.take_append_drop, List.take_append_drop]
 
 /-- **table obligation** over all atomic symbols of the regenerated unit table (the special-cased
-    ones included): `repr(u)` parses back to `u`, and `str(u)` does too except for the symbols of
-    `Ref.C20.strNotReparsed` -/
-theorem atomic_reparse_partial : lutKeys.all (rowOk Ref.C20.strNotReparsed) = true := by
-  rw [lutKeys_split, List.all_append, List.all_append, atomic_reparse_chunk0, atomic_reparse_chunk1,
+    ones included, none exempt): `repr(u)` parses back to `u`, and so does `str(u)` -/
+theorem atomic_reparse : lutKeys.all (rowOk []) = true := by
+  have h : Ref.C20.strNotReparsed = [] := rfl
+  rw [lutKeys_split, List.all_append, List.all_append, ← h, atomic_reparse_chunk0, atomic_reparse_chunk1,
     atomic_reparse_chunk2]; rfl
 
 example : lutKeys.length ≥ 100 := by decide +kernel
+
+/-- the special-cased texts are read back (fix C20-01) -/
+theorem delta_deg_reparsed :
+    strReparses "delta_degC" = true ∧ strReparses "delta_degF" = true ∧
+    unitStr (symE "delta_degC") = "Δ°C" ∧ "delta_degC" ∈ lutKeys ∧ "delta_degF" ∈ lutKeys := by
+  decide +kernel
 
 /-- full strength: for every atomic symbol and for the dimensionless unit, `str` and `repr`
     parse back to the unit -/
@@ -97,11 +103,13 @@ def C20_reparse_full : Prop :=
   same (parseUnit (unitStr ⟨1, []⟩)) (.ok ⟨1, []⟩) = true ∧
   same (parseUnit (unitRepr ⟨1, []⟩)) (.ok ⟨1, []⟩) = true
 
-/-- `str(delta_degC) = 'Δ°C'` is rejected; `str(delta_degF)` likewise -/
-theorem delta_deg_not_reparsed :
-    strReparses "delta_degC" = false ∧ strReparses "delta_degF" = false ∧
-    unitStr (symE "delta_degC") = "Δ°C" ∧ "delta_degC" ∈ lutKeys ∧ "delta_degF" ∈ lutKeys := by
-  decide +kernel
+/-- the part of `C20_reparse_full` that holds: every atomic symbol (the remaining exception is
+    the dimensionless unit, `one_not_reparsed`) -/
+theorem C20_reparse_partial : ∀ s, s ∈ lutKeys → reprReparses s = true ∧
+    (unitStr (symE s) == unitRepr (symE s) || strReparses s) = true := by
+  intro s hs
+  have h := List.all_eq_true.mp atomic_reparse s hs
+  simpa [rowOk] using h
 
 /-- `str(Unit(''))` and `repr(Unit(''))` are read back as the *symbol* `dimensionless`, a
     different expression -/
@@ -113,13 +121,9 @@ theorem one_not_reparsed :
 
 theorem C20_reparse_counterexample : ¬ C20_reparse_full := by
   intro h
-  have h1 := (h.1 "delta_degC" delta_deg_not_reparsed.2.2.2.1).1
-  rw [delta_deg_not_reparsed.1] at h1
+  have h1 := h.2.1
+  rw [one_not_reparsed.2.1] at h1
   exact Bool.noConfusion h1
-
-/-- the exclusion list is tight: every excluded symbol is in the table and really fails -/
-theorem reparse_exclusions_needed :
-    Ref.C20.strNotReparsed.all (fun s => lutKeys.contains s && !strReparses s) = true := by decide +kernel
 
 /-! ### totality -/
 
@@ -135,25 +139,28 @@ def isErr (r : Except PErr (UExpr Rat)) (c : PErr) : Bool :=
 theorem isErr_iff (r : Except PErr (UExpr Rat)) (c : PErr) : isErr r c = true ↔ r = .error c := by
   cases r <;> simp [isErr]
 
-/-- the escapes of the faithful model, one witness per listed finding:
-    `TypeError` from a negative scale, from a negative number, from a symbolic exponent;
-    towers and float exponents that do not come back -/
+/-- what remains of the escapes of the faithful model: towers and float exponents that do not
+    come back (one witness per listed finding) -/
 theorem escapes :
-    isErr (parseUnit "lat**0.5") .typeError = true ∧
-    isErr (parseUnit "(-8)**(1/3)") .typeError = true ∧
-    isErr (parseUnit "m**(2*s)") .typeError = true ∧
     isErr (parseUnit "9**9**9**9") .hang = true ∧
     isErr (parseUnit "1e999999999*m") .hang = true := by decide +kernel
+
+/-- the former escapes are refused with `UnitParseError` (fix C20-02) -/
+theorem former_escapes_refused :
+    isErr (parseUnit "lat**0.5") .unitParseError = true ∧
+    isErr (parseUnit "(-8)**(1/3)") .unitParseError = true ∧
+    isErr (parseUnit "m**(2*s)") .unitParseError = true ∧
+    isErr (parseUnit "sqrt(lat)*zz") .unitParseError = true := by decide +kernel
 
 theorem C20_total_counterexample : ¬ C20_total_full := by
   intro h
   have e := (isErr_iff _ _).mp escapes.1
-  rcases h "lat**0.5" with ⟨x, hx⟩ | hx
+  rcases h "9**9**9**9" with ⟨x, hx⟩ | hx
   · rw [e] at hx; cases hx
   · rw [e] at hx; injection hx with h'; exact PErr.noConfusion h'
 
 /-- the same strings without the offending power are refused or accepted normally -/
-example : isErr (parseUnit "lat**2") .typeError = false ∧ isErr (parseUnit "m**s") .unitParseError = true ∧
+example : isErr (parseUnit "lat**2") .unitParseError = false ∧ isErr (parseUnit "m**s") .unitParseError = true ∧
     isErr (parseUnit "zz") .unitParseError = true := by decide +kernel
 
 end Unyt.C20
